@@ -20,7 +20,7 @@ impl Fragmentable for Raw {
 fn show_frame(f: &Frame) -> String {
     let addr = match &f.addr {
         None => "none".to_string(),
-        Some(a) => hex(a.to_string().as_bytes()),
+        Some(a) => super::ops_codec::show_target(a),
     };
     format!("F:{}:{}:{}", f.session_id, addr, hex(&f.body))
 }
